@@ -38,10 +38,20 @@ type Frame struct {
 	defers []*ssa.Defer
 }
 
+// oracleEvent: one call of an uninterpreted (oracle) function on this path,
+// with the abstract arguments it received and the outcome chosen for it.
+type oracleEvent struct {
+	Fn   *ssa.Function
+	Args []AV
+	Out  []AV
+	Pos  string
+}
+
 type State struct {
 	heap   map[int]AV
 	frames []*Frame
 	trail  []trailEntry
+	events []oracleEvent
 	steps  int
 	result []AV
 	done   bool
@@ -96,6 +106,9 @@ type Interp struct {
 	InitNotes  map[string]string
 	Hostile    bool // decoder analysis: symbols are attacker-chosen
 	allocLimit func(n int64, in ssa.Instruction, s *State) string // optional: judge allocation sizes
+	// Oracles: module functions that are not entered; every call forks the
+	// path once per listed outcome (result tuple) and is logged in State.events.
+	Oracles map[*ssa.Function][][]AV
 	inputLen   int
 }
 
@@ -133,6 +146,7 @@ func (s *State) clone() *State {
 		n.heap[k] = v
 	}
 	n.trail = append([]trailEntry(nil), s.trail...)
+	n.events = append([]oracleEvent(nil), s.events...)
 	for _, f := range s.frames {
 		nf := &Frame{fn: f.fn, env: make(map[ssa.Value]AV, len(f.env)), block: f.block, prev: f.prev, pc: f.pc, call: f.call,
 			visits: make(map[*ssa.BasicBlock]int, len(f.visits)), defers: append([]*ssa.Defer(nil), f.defers...)}
